@@ -162,6 +162,7 @@ type runHooks struct {
 	nClients     int
 	noClose      bool
 	afterMain    func(e *env)
+	onStuck      func(e *env) // called when the workload phase ended without all calls returning, before healing
 }
 
 func (e *env) stdGhost(g GhostSpec) func(*sched.Sim) {
@@ -265,6 +266,9 @@ func standardRun(t *testing.T, seed uint64, p *Plan, out *Outcome, h runHooks) *
 		buf := make([]byte, 1<<20)
 		buf = buf[:runtime.Stack(buf, true)]
 		os.Stderr.Write(buf)
+	}
+	if (rr.Reason == "stuck" || rr.Reason == "maxsteps") && h.onStuck != nil {
+		h.onStuck(e)
 	}
 	if rr.Reason == "stuck" || rr.Reason == "maxsteps" {
 		// heal and give everything a bounded chance to return before judging a hang
